@@ -527,6 +527,19 @@ def recovery_script(r, idx, fate_vec=None):
             cfg["ce_mark"] = True
         if r.random() < 0.2:
             cfg["incoming"] = "retry"
+        if r.random() < 0.4:
+            # what the network does to the ECN field: congestion experienced, mark stripped, rewritten
+            # to ECT(1) - for single datagrams, or for everything from some point on (a bleaching path)
+            for k in ("fates_c2s", "fates_s2c"):
+                fl = cfg[k] + ["ok"] * 50
+                if r.random() < 0.25:
+                    start = r.randrange(0, 40)
+                    kind = r.choice(["bleach", "bleach", "ect1", "ce"])
+                    fl = [kind if (i >= start and f == "ok") else f for i, f in enumerate(fl)] + [kind] * 300
+                else:
+                    p = r.choice([0.05, 0.2, 0.5])
+                    fl = [r.choice(["ce", "ce", "bleach", "ect1"]) if (f == "ok" and r.random() < p) else f for f in fl]
+                cfg[k] = fl
     if r.random() < 0.3:
         cfg["max_datagrams"] = r.choice([1, 2, 4])
     if r.random() < 0.15:
